@@ -254,6 +254,21 @@ CHECKS['C15'] = dict(
     technique='sidecar contracts + own VC generator over the real AST + z3 for record exactness and log discipline; AST scans for writers, '
               'randomness and sharing; bounded replay / copy stand-in')
 
+CHECKS['C09'] = dict(
+    category='other',
+    text='The property relates two runs (a hyperproperty); no contract on one call states it. Machine-checked are the premises it follows '
+         'from: (a1) structural scan -- only the phase steps _update_X read self.automations; (a2) structural scan -- the code guarded by '
+         '`Automation.K in self.automations` consists of nothing but argument-less calls of K\'s own operation; (a3) QUIESCENCE, deductive: '
+         'every function of the cascade (16 operations, 27 steps, _begin) is executed symbolically with callee contracts and per-loop '
+         'invariants, for ALL 2^11 automation subsets at once (the tuple is eleven free booleans), and ends in a state in which no operation '
+         'of an automated kind is available -- the engine has done every automated step as soon as it became available, in its fixed '
+         'priority order; that each automated call is accepted where it is made is discharged under C07. Default arguments (a4) and '
+         'determinism (a5) are C08/C10/C12/C14/C15 clauses. The composition to trace equality with the eager un-automated twin is a paper '
+         'argument; twin runs over automation subsets of small games are a bounded stand-in, never counted.',
+    design_ref='DESIGN.md section 4 (C09), section 8',
+    note='level other: premises proved (scans: no bound; quiescence: D/shape n=2 quick, more thorough), composition on paper, B stand-in.',
+    technique='sidecar contracts + own VC generator with contract / loop-invariant cuts + z3 (quiescence); AST scans; bounded twin-run stand-in')
+
 NOT_APPLICABLE = {
     'C20': 'regex-driven text importers against external site formats; no contract within reach expresses or decides it (DESIGN.md section 5)',
 }
